@@ -54,7 +54,7 @@ def main():
             demo_cmds = ["go test -count=1 -run TestSeeded .", "go test -race -count=1 -run TestSeeded ."]
         elif os.path.exists(demo_sh):
             shutil.copy(demo_sh, os.path.join(wt, "zz_demo.sh"))
-            demo_cmds = ["bash zz_demo.sh"]
+            demo_cmds = ["bash zz_demo.sh ."]
         else:
             result["reject"] = "no demonstration"
             return finish(result, cand, dest, meta, wt, keep=False)
